@@ -303,10 +303,11 @@ def _agree(vname, consts, first, items, r, oc, end):
         return False, "reader rejects the opcode"
     # composite rows: Extension / DefineFont are built inside callees
     if vname == "Extension":
-        want_first = first[0] if first else None
-        if len(ritems) == 2 and ritems[1][0] == "extension" and ritems[0][:2] == (want_first[0], want_first[1]) and ritems[0][2] == "len->extension":
-            if items and items[0][0] == "bytes":
-                return True, None
+        w = list(first) + list(items)
+        # length item (width, signedness) then the payload bytes
+        if (len(ritems) == 2 and ritems[1][0] == "extension" and ritems[0][2] == "len->extension" and len(w) >= 2
+                and isinstance(w[0][0], int) and tuple(w[0][:2]) == tuple(ritems[0][:2]) and w[1][0] == "bytes"):
+            return True, None
         return False, "extension payload shape differs"
     if vname == "DefineFont":
         want_first = first[0] if first else None
@@ -503,8 +504,99 @@ def r16_2(F, R):
             R.violation("R16.2", inst, "VarRemover must pass Op::%s through unchanged after updating the values (rebuilds %s, update called: %s)" % (vname, sorted(built), updated), "%s:%d" % (nxt.file, nxt.line))
 
 
+def r16_5(F, R):
+    from ..pps import Discharger, INT_RANGE
+    R.rule("R16.5", "no value-changing integer narrowing in the DVI codec: every `as` cast to a narrower (or differently signed, smaller-range) integer type "
+                    "in dvi::serialize / dvi::deserialize is dominated by comparisons that keep the source inside the target's range, or keeps all bits on "
+                    "purpose (same-width reinterpretation); a length or operand that is silently truncated no longer decodes to the operation that was encoded")
+    n = 0
+    seen_k = {}
+    for fn in sorted(F.fns.values(), key=lambda f: f.name):
+        if fn.crate != "dvi.lib" or not (fn.file.endswith("dvi/src/serialize.rs") or fn.file.endswith("dvi/src/deserialize.rs")) or "::tests::" in fn.name:
+            continue
+        D = None
+        for bi, b in enumerate(fn.blocks):
+            if b.get("cleanup"):
+                continue
+            for st in b["s"]:
+                if st["k"] != "=" or st["rv"]["k"] != "cast" or st["rv"].get("ck") != "IntToInt" or st.get("exp"):
+                    continue
+                sp = op_place(st["rv"]["op"])
+                if sp is None or sp["p"] or st["lhs"]["p"]:
+                    continue
+                sty, dty = fn.local_ty(sp["l"]), fn.local_ty(st["lhs"]["l"])
+                if sty not in INT_RANGE or dty not in INT_RANGE:
+                    continue
+                n += 1
+                s, d = INT_RANGE[sty], INT_RANGE[dty]
+                k = (strip_generics(fn.name), sty, dty)
+                seen_k[k] = seen_k.get(k, -1) + 1
+                inst = "%s/%s->%s#%d" % (strip_generics(fn.name).replace("dvi::", ""), sty, dty, seen_k[k])
+                if d[0] <= s[0] and s[1] <= d[1]:
+                    R.ok("R16.5", inst, "widening", fn.loc(st), how="type")
+                    continue
+                if (s[1] - s[0]) == (d[1] - d[0]):
+                    R.ok("R16.5", inst, "same-width reinterpretation (all bits kept)", fn.loc(st), how="type")
+                    continue
+                D = D or Discharger(F, fn)
+                src = D.src_local(st["rv"]["op"])
+                lo, hi = D.range_of(src["l"], bi) if src is not None and not src["p"] else (None, None)
+                if lo is not None and hi is not None and d[0] <= lo and hi <= d[1]:
+                    R.ok("R16.5", inst, "source in [%d, %d] by dominating guards" % (lo, hi), fn.loc(st), how="guard")
+                else:
+                    R.violation("R16.5", inst, "%s narrows %s to %s with `as` where the source is only known to lie in %s: values outside %s..=%s are silently "
+                                "truncated, so the bytes written/read no longer correspond to the operation" % (
+                                    fn.name, sty, dty, "[%s, %s]" % (lo if lo is not None else s[0], hi if hi is not None else s[1]), d[0], d[1]), fn.loc(st))
+    R.floor("R16.5", "integer casts in the DVI codec", n, 5)
+
+
+def r16_6(F, R):
+    from ..cfg import Defs, find_path, is_return, field_path
+    R.rule("R16.6", "unbalanced pop: in Values::update the result of `tail.pop()` is tested, and on the empty-stack (None) arm the function returns without "
+                    "writing the tracked values (`self.top`); substituting a default frame would zero h,v,w,x,y,z, so VarRemover would rewrite later "
+                    "w/x/y/z moves with the wrong distance")
+    fn = _one(F, "dvi::Values::update")
+    defs = Defs(fn)
+    pops = [(bi, t) for bi, t in fn.calls() if strip_generics(callee_name(t) or "").endswith("Vec::pop")]
+    if len(pops) != 1:
+        raise AnchorError("R16.6: %d Vec::pop calls in Values::update" % len(pops))
+    bi, t = pops[0]
+    res = t["dest"]["l"] if isinstance(t.get("dest"), dict) else None
+    # the block(s) switching on discriminant(result)
+    none_targets = []
+    for b2i, b2 in enumerate(fn.blocks):
+        t2 = b2["t"]
+        if t2["k"] != "switch":
+            continue
+        p = op_place(t2["op"])
+        d = defs.single(p["l"]) if p is not None and not p["p"] else None
+        if d and d[0] == "st" and d[3]["k"] == "=" and d[3]["rv"]["k"] == "discr" and d[3]["rv"]["pl"]["l"] == res and not d[3]["rv"]["pl"]["p"]:
+            m = dict(t2["ts"])
+            none_targets.append(m.get(0, t2["else"]) if 1 in m else m.get(0))
+    loc = fn.loc(t)
+    if not none_targets or None in none_targets:
+        # where does the result go instead?
+        users = [strip_generics(callee_name(c) or "").split("::")[-1] for _, c in fn.calls() if any((op_place(a) or {}).get("l") == res for a in c["args"])]
+        R.violation("R16.6", "Values::update/pop", "the result of `tail.pop()` is not tested for the empty stack (it flows to %s): a surplus pop replaces the "
+                    "tracked values instead of being ignored" % (users or "no test"), loc)
+        return
+
+    def writes_top(b):
+        for st in fn.blocks[b]["s"]:
+            if st["k"] == "=" and "top" in (field_path(st["lhs"]) or []):
+                return True
+        return False
+    bad = find_path(fn, none_targets, writes_top)
+    if bad:
+        R.violation("R16.6", "Values::update/pop", "on the empty-stack arm of `tail.pop()` the tracked values are written before returning", fn.loc(fn.blocks[bad[-1]]["t"]))
+    else:
+        R.ok("R16.6", "Values::update/pop", "None arm returns without touching self.top", loc, how="path")
+
+
 def run(F, R, tier):
     r16_1(F, R)
+    r16_5(F, R)
+    r16_6(F, R)
     r16_1b(F, R)
     r16_2(F, R)
     try:
